@@ -533,6 +533,11 @@ impl<Backing : AsRef<[u32]> + AsMut<[u32]>> DrawTarget<Backing> {
             return;
         }
 
+        // every path starts without a current point: don't continue from wherever
+        // the previous path (of an earlier fill or clip) left off
+        self.current_point = None;
+        self.first_point = None;
+
         for op in &path.ops {
             match *op {
                 PathOp::MoveTo(pt) => {
